@@ -110,7 +110,8 @@ class ABCPropertyGraph(ABCPropertyGraphConstants):
         "tags": ABCPropertyGraphConstants.PROP_TAGS,
         "flags": ABCPropertyGraphConstants.PROP_FLAGS,
         "boot_script": ABCPropertyGraphConstants.PROP_BOOT_SCRIPT,
-        "maintenance_info": ABCPropertyGraphConstants.PROP_MAINTENANCE_INFO
+        "maintenance_info": ABCPropertyGraphConstants.PROP_MAINTENANCE_INFO,
+        "stitch_node": ABCPropertyGraphConstants.PROP_STITCH_NODE
     }
 
     @abstractmethod
